@@ -29,6 +29,7 @@ def classes():
             out.append((v, code, False, True))
     for code in (0x000A, 0x002F, 0x0084):
         out.append((V.TLS10, code, True, True))                  # TLS 1.0 + encrypt-then-MAC + implicit IV chaining
+        out.append((V.SSL30, code, True, True))                  # OpenSSL negotiates EtM under SSL 3.0 too (repo captures)
     for v in (V.TLS11, V.TLS12):
         out.append((v, 0x0005, False, True))
         out.append((v, 0x002F, False, True))
@@ -70,7 +71,8 @@ def boundary_len(code, etm):
 def describe(tier):
     n = 3 if tier == "quick" else 4
     return {
-        "rule": "A: all table suites x valid versions x EtM/hs-secret variants, fixed 10-record history (+16384 for class "
+        "rule": "L: the record histories of depth<=2 (thorough 3) spoken by two live OpenSSL endpoints for 17 negotiable classes; "
+                "A: all table suites x valid versions x EtM/hs-secret variants, fixed 10-record history (+16384 for class "
                 f"representatives); B: per class ({len(classes())} classes) every application-record history of depth<={n} over "
                 "{c,s} x {0,1,block-boundary,300}; C: handshake-shape deviations k<=2; D: 3 segmentations x IPv4/IPv6. "
                 "non-trivial: both directions exported >=1 byte (layers A,C,D) or the history contains >=2 records (B); distinct "
@@ -139,6 +141,11 @@ def cases(tier, seed):
     # D
     for (v, code, etm, hs) in classes():
         yield {"layer": "D", "v": v, "suite": code, "etm": etm, "hs": hs, "seed": seed}
+    # L: the same record histories spoken by two real OpenSSL endpoints (ground truth independent of our model)
+    from ..model import live
+    for li in range(len(live.LIVE_CLASSES)):
+        for first in range(8):
+            yield {"layer": "L", "live": li, "first": first, "depth": 2 if tier == "quick" else 3, "seed": seed}
 
 
 def execute(scn, seed, v6=False, cutter=None, mss=1460):
@@ -198,7 +205,7 @@ def run_case(case):
         for v in (V.SSL30, V.TLS10, V.TLS11, V.TLS12, V.TLS13):
             if not tls.suite_valid_for(sp, v):
                 continue
-            etms = [False, True] if (sp.mode == "CBC" and v != V.SSL30) else [False]
+            etms = [False, True] if sp.mode == "CBC" else [False]
             hss = [True, False] if v == V.TLS13 else [True]
             for etm in etms:
                 for hs in hss:
@@ -261,6 +268,47 @@ def run_case(case):
                         if skip_shape(s2):
                             continue
                         one(s2, {"layer": "C", "class": cname, "shape": {d1: str(val1), d2: str(val2)}})
+    elif layer == "L":
+        from ..model import live
+        ver, cipher = live.LIVE_CLASSES[case["live"]]
+        lens = [0, 1, 15, 300]
+        alpha = [(d, l) for d in ("c", "s") for l in lens]
+        nodes = 0
+
+        def rec_l(hist):
+            nonlocal n, nodes, sample
+            nodes += 1
+            rng = scen.rng_for(seed, "live", ver, cipher, str(hist))
+            sig = {"layer": "L", "class": f"openssl/{ver}/{cipher}", "history": [f"{d}{l}" for d, l in hist]}
+            try:
+                r = live.run(ver, cipher, hist, lambda d, i, k: rng.randbytes(k))
+            except live.LiveError as e:
+                count["live_unavailable"] = count.get("live_unavailable", 0) + 1
+                return
+            ends = cap.Ends(9)
+            pk = cap.stamp(cap.tcp_packets(0, r["sends"]), {0: ends})
+            res = scen.run(pk, r["keylog"])
+            n += 1
+            try:
+                an = scen.analyse(res)
+                c = scen.tcp_streams(an, ends)
+                got = (c["c2s"], c["s2c"]) if c else (b"", b"")
+                if got != (r["plain"]["c"], r["plain"]["s"]):
+                    fails.append({"kind": "stream_mismatch", "sig": sig,
+                                  "detail": f"exported {len(got[0])}+{len(got[1])} bytes, OpenSSL wrote {len(r['plain']['c'])}+{len(r['plain']['s'])}"})
+                else:
+                    if len(hist) >= 2:
+                        nontriv.append(engine.jhash(sig))
+                    if sample is None:
+                        sample = {"live": sig, "negotiated": list(r["cipher"])}
+            except scen.ExportError as e:
+                fails.append({"kind": e.kind, "sig": sig, "detail": e.detail})
+            if len(hist) < case["depth"]:
+                for a in alpha:
+                    rec_l(hist + [a])
+        rec_l([alpha[case["first"]]])
+        count["states"] = nodes
+        count["transitions"] = nodes
     elif layer == "D":
         v, code, etm, hs = case["v"], case["suite"], case["etm"], case["hs"]
         cname = class_name(v, code, etm, hs)
